@@ -9,7 +9,7 @@ structure-name interchangeability sets.  Level: bounded contract checking (explo
 import io, contextlib, time, re, ast, os
 from pvc import run, work, vsem, netlist as N, leaf as L, ir
 from props import common
-from props.C01 import wrap, _adv
+from props.C01 import wrap, _adv, _multi
 
 PROP = 'C03'
 
@@ -142,6 +142,15 @@ def _naming():
     return D
 
 
+def multi_item(name, **kw):
+    base = 'design::multi.' + name
+    try:
+        sys_, top, pin, pout, ins, outs = wrap('multi_' + ''.join(ch if ch.isalnum() else '_' for ch in name), _multi()[name], {})
+    except Exception as e:
+        return [{'oid': base + '#refused', 'status': 'refused', 'bounded': True, 'evaluations': 0, 'reason': repr(e)[:200]}]
+    return wf_of_top(top, base, {'design': name}, name)[0]
+
+
 def naming_item(name, **kw):
     base = 'naming::' + name
     try:
@@ -161,7 +170,7 @@ def structure_names(**kw):
     groups = {}
     for name, b in N.BLOCKS.items():
         cfgs = b.cfgs('quick')
-        for cfg in cfgs[:: max(1, len(cfgs) // 12)][:14]:
+        for cfg in (cfgs if len(cfgs) <= 600 else cfgs[:: max(1, len(cfgs) // 600)]):
             try:
                 import py4hw
                 s = _q(py4hw.HWSystem); obj, ins, outs = _q(b.make, s, dict(cfg))
@@ -226,6 +235,7 @@ def main(tier, seed, only=None):
     for nm, (mk, cfgs) in _adv().items():
         items += [('props.C03:adv_item', dict(name=nm, k=k)) for k in range(len(cfgs))]
     items += [('props.C03:naming_item', dict(name=nm)) for nm in _naming()]
+    items += [('props.C03:multi_item', dict(name=nm)) for nm in _multi()]
     items += [('props.C03:structure_names', {}), ('props.C03:lemmas', {})]
     items = common.filter_only(items, only)
     res = [r for r in run.run_items(items) if r.get('status') != 'refused']
